@@ -89,6 +89,18 @@ MUTATIONS = {
         old="                    kitty_widgets.append(widget)\n                    widget._ti_change_disguise()",
         new="                    kitty_widgets.append(widget)\n                    now or widget._ti_change_disguise()",
     ),
+    # ---- need a format spec with a z field / a forced-support terminal other than kitty, Konsole -----
+    "c18-spec-z-field-overrides": dict(
+        file=FILE, props=["C18"], expect="draw_screen:composite:wrong-z-index",
+        old='            style_args["z_index"] = self._ti_z_index = self._ti_get_z_index()\n',
+        new='            self._ti_z_index = self._ti_get_z_index()\n'
+            '            style_args.setdefault("z_index", self._ti_z_index)\n',
+    ),
+    "c18-blend-false-only-on-kitty": dict(
+        file=FILE, props=["C18"], expect="draw_screen:composite:duplicate",
+        old='            if get_terminal_name_version()[0] != "konsole":\n                # To clear directly',
+        new='            if get_terminal_name_version()[0] == "kitty":\n                # To clear directly',
+    ),
     # DESIGN.md must-catch
     'c18-cviews-without-row-col': dict(
         file=FILE, props=["C18"],
